@@ -298,3 +298,23 @@ def write_replay(prop: str, payload: dict) -> Path:
     p = d / f"replay-{h}.json"
     p.write_text(txt)
     return p
+
+
+def match_finding(prop: str, cls: str, msg: str = "", **extra) -> str | None:
+    """Attribute a located failure to a known finding: the entry's pattern must name the class and,
+    where given, a substring of the failure message and exact values of extra keys."""
+    for f in load_findings():
+        if f.get("property") != prop or f.get("status") != "known":
+            continue
+        pat = f.get("pattern", {})
+        if cls not in pat.get("classes", []):
+            continue
+        if pat.get("contains") and not any(c in msg for c in ([pat["contains"]] if isinstance(pat["contains"], str) else pat["contains"])):
+            continue
+        ok = True
+        for k, v in pat.get("where", {}).items():
+            if extra.get(k) not in (v if isinstance(v, list) else [v]):
+                ok = False
+        if ok:
+            return f["id"]
+    return None
